@@ -16,34 +16,40 @@
 (*     behaviour up to PD steps; each behaviour is exported and replayed into the   *)
 (*     real code, the result of one step being the input of the next.  Checked on   *)
 (*     every transition: PipeConserved, PipeStepLaws.                               *)
+(* (c) MECHANISM.  For every combine case with keep=False the consuming loop of     *)
+(*     combine_arrlist runs as actions (MechBegin, MechPop - one per iteration, with *)
+(*     the exception point after the pop): MechConserves, MechRefines.              *)
 EXTENDS Selection, Json
 
 CONSTANTS NV,        \* interval cases: lattice values and bounds 0..NV (NV odd)
           WL,        \* where1: boolean arrays of length 0..WL
-          ML,        \* percentile / arrscl / keyby: data arrays of length 1..ML
+          ML,        \* percentile / keyby: data arrays of length 1..ML (<= 5); arrscl: 1..min(ML, 4)
           PVals,     \* percentile data over 1..PVals
           Rich,      \* TRUE: the larger alphabets (thorough tier)
           PL, PV,    \* pipeline: initial arrays of length 1..PL over values 1..PV
           PD,        \* pipeline: number of steps
           LeanFrom,  \* pipeline: steps after the LeanFrom-th use the lean alphabet
+          Fams,      \* the function families to enumerate ({} = all)
           DoExport
 
-VARIABLES ph, c, ini, lst, prev, hist
-vars == <<ph, c, ini, lst, prev, hist>>
+VARIABLES ph, c, ini, lst, prev, hist, mech
+vars == <<ph, c, ini, lst, prev, hist, mech>>
+NoMech == [st |-> "none"]
 
 NoCase == [fn |-> "none"]
-Init == ph = "start" /\ c = NoCase /\ ini = <<>> /\ lst = <<>> /\ prev = <<>> /\ hist = <<>>
+Init == ph = "start" /\ c = NoCase /\ ini = <<>> /\ lst = <<>> /\ prev = <<>> /\ hist = <<>> /\ mech = NoMech
 
-Families == {"between", "outside", "where1", "percentile", "arrscl", "replicate", "combine",
-             "dict2array", "dictlist2array", "strmatch", "grid", "dict_select", "keyby"}
+AllFamilies == {"between", "outside", "where1", "percentile", "arrscl", "replicate", "combine",
+                "dict2array", "dictlist2array", "strmatch", "grid", "dict_select", "keyby"}
+Families == IF Fams = {} THEN AllFamilies ELSE Fams
 Shards == 0..5
 
 Pick == /\ ph = "start"
         /\ \E f \in Families : \E s \in Shards : c' = [fn |-> f, sh |-> s]
-        /\ ph' = "fam" /\ UNCHANGED <<ini, lst, prev, hist>>
+        /\ ph' = "fam" /\ UNCHANGED <<ini, lst, prev, hist, mech>>
 
 Fam(f) == ph = "fam" /\ c.fn = f
-Emit(cc) == c' = cc /\ ph' = "case" /\ UNCHANGED <<ini, lst, prev, hist>>
+Emit(cc) == c' = cc /\ ph' = "case" /\ UNCHANGED <<ini, lst, prev, hist, mech>>
 
 \* ---- between / outside -----------------------------------------------------------
 IvX == [j \in 1..(NV + 1) |-> j - 1]                      \* every lattice value once
@@ -66,7 +72,7 @@ ChooseInterval ==
 \* ---- where1 -----------------------------------------------------------------------
 ChooseWhere ==
     /\ Fam("where1")
-    /\ \/ \E n \in {m \in 0..WL : m % 6 = c.sh} : \E x \in [1..n -> {0, 1}] : \E f \in {"bool", "list"} :
+    /\ \/ \E n \in {m \in 0..WL : m % 6 = c.sh} : \E x \in [1..n -> {0, 1}] : \E f \in (IF n <= 6 THEN {"bool", "list"} ELSE {"bool"}) :
              Emit([fn |-> "where1", x |-> x, form |-> f])
        \/ \E n \in {m \in 1..3 : m % 6 = c.sh} : \E x \in [1..n -> {0, 1, 2}] :
              Emit([fn |-> "where1", x |-> x, form |-> "int"])
@@ -84,11 +90,11 @@ ChoosePerc ==
                 Emit([fn |-> "percentile", x |-> x, q8 |-> q, scalar |-> FALSE, ranges |-> TRUE, method |-> me])
 
 \* ---- arrscl -------------------------------------------------------------------------
-MinMax == {<<0, 1>>, <<-1, 1>>, <<2, 2>>, <<3, 0>>, <<0, 3>>, <<-2, -5>>}
+MinMax == {<<0, 1>>, <<2, 2>>, <<3, 0>>, <<-2, -5>>} \cup (IF Rich THEN {<<-1, 1>>, <<0, 3>>} ELSE {})
 Absent == 99
 SclShapes(n) == {<<n>>} \cup (IF n = 1 THEN {<<>>, <<1, 1>>} ELSE IF n = 4 THEN {<<2, 2>>} ELSE IF n = 2 THEN {<<2, 1>>} ELSE {})
 ChooseScl ==
-    /\ Fam("arrscl") /\ c.sh \in 1..ML
+    /\ Fam("arrscl") /\ c.sh \in 1..VMin2(ML, 4)
     /\ \E x \in [1..c.sh -> 0..3] : \E mm \in MinMax : \E lo \in {Absent, 0, 1} : \E hi \in {Absent, 2, 4} :
        \E sh \in SclShapes(c.sh) : \E dt \in (IF lo = Absent /\ hi = Absent THEN {"default", "f8", "f4"} ELSE {"default"}) :
           Emit([fn |-> "arrscl", x |-> x, shape |-> sh, minv |-> mm[1], maxv |-> mm[2],
@@ -195,19 +201,25 @@ PipeStart ==
     /\ \E n \in 1..PL : \E x \in [1..n -> 1..PV] :
           LET a == [j \in 1..n |-> [t |-> j, v |-> x[j]]] IN
           ini' = a /\ lst' = <<a>> /\ prev' = <<a>>
-    /\ ph' = "pipe" /\ hist' = <<>> /\ UNCHANGED c
+    /\ ph' = "pipe" /\ hist' = <<>> /\ UNCHANGED <<c, mech>>
 
 CanStep == ph = "pipe" /\ Len(hist) < PD
 Step(op) == /\ SLPEnabled(lst, op)
             /\ prev' = lst /\ lst' = SLPNext(lst, op) /\ hist' = hist \o <<op>>
-            /\ UNCHANGED <<ph, c, ini>>
+            /\ UNCHANGED <<ph, c, ini, mech>>
 Sel  == CanStep /\ \E k \in 1..VMin2(Len(lst), KMax) : \E neg \in BOOLEAN : \E ty \in SelTypes(neg) : \E b \in SelBounds :
             Step(Op("sel", k, neg, ty, b[1], b[2], <<>>, FALSE))
 Perc == CanStep /\ Len(lst) <= 4 /\ \E k \in 1..VMin2(Len(lst), KMax) : \E q \in PercSets :
             Step(Op("perc", k, FALSE, "", 0, 0, q, FALSE))
 Comb == CanStep /\ \E keep \in BOOLEAN : Step(Op("comb", 0, FALSE, "", 0, 0, <<>>, keep))
 
-Next == Pick \/ ChooseInterval \/ ChooseWhere \/ ChoosePerc \/ ChooseScl \/ ChooseRep \/ ChooseComb \/ ChooseDict
+\* ---- the consuming loop of combine_arrlist, one action per iteration -----------------------------
+MechBegin == /\ ph = "case" /\ SLMApplies(c)
+             /\ mech' = SLMInit(c.arrs) /\ ph' = "mech" /\ UNCHANGED <<c, ini, lst, prev, hist>>
+MechPop   == /\ ph = "mech" /\ mech.st = "run" /\ mech.lst # <<>>
+             /\ mech' = SLMStep(mech) /\ UNCHANGED <<ph, c, ini, lst, prev, hist>>
+
+Next == Pick \/ MechBegin \/ MechPop \/ ChooseInterval \/ ChooseWhere \/ ChoosePerc \/ ChooseScl \/ ChooseRep \/ ChooseComb \/ ChooseDict
         \/ ChooseDictList \/ ChooseStr \/ ChooseGrid \/ ChooseSel \/ ChooseKey
         \/ PipeStart \/ Sel \/ Perc \/ Comb
 Spec == Init /\ [][Next]_vars
@@ -339,6 +351,17 @@ Laws == (IsCase /\ SLDetermined(c)) =>
           /\ VSum([i \in DOMAIN r.groups |-> Len(r.groups[i].m)]) = Len(c.kv)                            \* a partition of the collection
           /\ \A j \in DOMAIN c.kv : \E i \in DOMAIN r.groups : r.groups[i].k = c.kv[j] /\ (j - 1) \in VRange(r.groups[i].m)
 
+\* ---- the mechanism of combine_arrlist ---------------------------------------------------------------
+InMech == ph = "mech"
+MechRows(l) == SLConcat([k \in DOMAIN l |-> l[k].rows])
+\* while the loop runs normally every row is either in the output or still in the caller's list
+MechConserves == (InMech /\ mech.st = "run" /\ ~SLCombMixed(c.arrs)) => mech.out \o MechRows(mech.lst) = SLCombRows(c.arrs)
+\* the finished loop is accepted by the property-level specification
+MechRefines == (InMech /\ mech.st = "run" /\ mech.lst = <<>>) => SLFailing(c, SLMObs(c, mech)) = {}
+\* NOT an invariant (the contract says nothing about it): at the exception point the popped array is in
+\* neither place.  Checked to be violated - the exception point is really modelled - and reported as a lead.
+MechRaiseKeepsRows == (InMech /\ mech.st = "raised") => Len(mech.out) + Len(MechRows(mech.lst)) = Len(SLCombRows(c.arrs))
+
 \* =====================================================================================
 \* properties of the pipeline
 \* =====================================================================================
@@ -394,5 +417,5 @@ Export ==
     /\ (DoExport /\ InPipe /\ Len(hist) = PD) => PrintT(<<"CHAIN", ToJson([ini |-> ini, ops |-> hist])>>)
 
 \* the pipeline invariants look at the last transition only
-LastView == <<ph, c, ini, lst, prev, Len(hist), IF hist = <<>> THEN <<>> ELSE <<Last>>, KeptSome>>
+LastView == <<ph, c, ini, lst, prev, Len(hist), IF hist = <<>> THEN <<>> ELSE <<Last>>, KeptSome, mech>>
 =============================================================================
